@@ -173,7 +173,8 @@ fn dec_str(d: &[u8]) -> String { d.iter().map(|x| (b'0' + x) as char).collect() 
 /// 2^1024 - 2^970 (where the default build's answer is not determined by the value: finding C01-default-range-band), in
 /// several spellings (digit counts 17..25, decimal point anywhere, leading `0.000`, `e`/`E`/`e+`, 309-digit integers,
 /// digits beyond u64) and nesting positions (top level, array element, nested, object value, after other members).
-pub fn range_band(sink: &mut Sink, cfg: &str, r: &mut Rng, thorough: bool) {
+pub fn range_band(sink: &mut Sink, cfg: &str, r: &mut Rng, thorough: bool) { range_band_n(sink, cfg, r, if thorough { 3000 } else { 300 }) }
+pub fn range_band_n(sink: &mut Sink, cfg: &str, r: &mut Rng, n: usize) {
     let mut lits: Vec<String> = vec![];
     for l in ["17976931348623156225e289", "1.7976931348623158e308", "179769313486231591e291", "1.7976931348623157e308", "1.7976931348623159e308",
               "17976931348623158e292", "17976931348623157e292", "179769313486231580793e288", "179769313486231580794e288", "1797693134862315807e290",
@@ -195,7 +196,6 @@ pub fn range_band(sink: &mut Sink, cfg: &str, r: &mut Rng, thorough: bool) {
         lits.push(format!("{}e-5", format!("{}00000", d)));
     }
     // random mantissas 1.79769313486231[4-6]…e308 with 17..25 digits, the point anywhere
-    let n = if thorough { 3000 } else { 300 };
     for _ in 0..n {
         let k = 17 + r.below(9);
         let mut d = String::from("179769313486231");
@@ -540,6 +540,38 @@ pub fn long_seq(sink: &mut Sink, cfg: &str, r: &mut Rng, thorough: bool) {
     }
 }
 
+/// C01 / C02 (tag `long-nearmiss`): the number grammar on literals whose integer part has left (or is about to leave) the 64-bit fast
+/// path of `de.rs` — 19, 20, 21, 25 and 40 digits, both sides of u64::MAX, with and without `-` (20 and more digits:
+/// `parse_long_integer` / `parse_long_decimal` / `parse_long_exponent` under float_roundtrip, `parse_decimal_overflow` /
+/// `parse_exponent_overflow` otherwise) — followed by every near-miss continuation of the grammar (`.` `.e2` `.E-3` `e` `e+` `.5e` `.-1` …:
+/// a point without a fraction digit, an exponent marker without a digit, a sign in the wrong place, a second point / exponent) and by
+/// the well-formed continuations next to them, at top level and inside arrays / objects.
+pub fn long_nearmiss(sink: &mut Sink, cfg: &str, r: &mut Rng, thorough: bool, light: bool) {
+    let mut ints: Vec<String> = vec![];
+    for f in ["9999999999999999999", "1844674407370955161", "18446744073709551615", "18446744073709551616", "10000000000000000000", "99999999999999999999",
+              "100000000000000000000", "184467440737095516150", "1000000000000000000000000", "1234567890123456789012345678901234567890"] { ints.push(f.to_string()); }
+    for n in [19usize, 20, 21, 25, 40] { for _ in 0..(if thorough { 6 } else { 1 }) { ints.push(digs(r, n)); } }
+    // continuations the grammar does not admit …
+    let bad: [&str; 30] = [".", ".e2", ".E-3", "e", "e+", "e-", ".5e", ".5e+", ".5E-", ".-1", ".+1", ".e", ".E", "E", ".e+2", ".E+10", ".e-0", "..5", ".5.", ".5.5",
+                           ".5e2.", ".5e2e2", "e2e2", "e.5", "e2.5", "e+-2", "e 2", ". 5", ".5e 2", "-"];
+    // … and the ones it does (the accepted neighbours: the same paths must still accept these)
+    let good: [&str; 12] = ["", ".5", "e2", ".5e2", "E-3", ".0E+0", ".25e-3", "e+2", ".5E2", "e0", ".000", "E+02"];
+    let ctx: [(&str, &str); 10] = [("", ""), ("[", "]"), ("[1,", "]"), ("[", ",2]"), ("{\"a\":", "}"), ("{\"a\":", ",\"b\":0}"), (" ", " "), ("[[", "]]"),
+                                   ("\n[\n", "\n]\n"), ("{\"k\":[0, ", " ]}")];
+    for (k, i) in ints.iter().enumerate() {
+        for sign in ["", "-"] {
+            for (j, t) in bad.iter().chain(good.iter()).enumerate() {
+                for (c, (pre, post)) in ctx.iter().enumerate() {
+                    // quick tier: every literal bare and in two rotating contexts (one in configurations other than default / float_roundtrip)
+                    if !thorough && c != 0 && c != 1 + (k + j) % 9 && (light || c != 1 + (k + 2 * j + 4) % 9) { continue; }
+                    let doc = format!("{}{}{}{}{}", pre, sign, i, t, post);
+                    emit(sink, cfg, doc.as_bytes(), r, if j < bad.len() { "long-nearmiss" } else { "long-nearmiss-ok" });
+                }
+            }
+        }
+    }
+}
+
 /// C11 / C09 (tag `long-err`): syntax errors inside numbers that have left the 64-bit fast path — an integer part of 19–30 digits
 /// (20 and more: `parse_long_integer` / `parse_long_decimal` / `parse_long_exponent` under float_roundtrip) followed by
 /// `.` / `.e` / `e` / `e+` / `e-` / `.5e` … and then a byte that is not a digit (or the end of input), inside arrays and objects, on
@@ -577,6 +609,57 @@ pub fn long_err(sink: &mut Sink, cfg: &str, r: &mut Rng, thorough: bool) {
     }
 }
 
+/// C11 / C09 / C14 (tag `depth-lines`): where the nesting-limit error is reported. Nests of 127 / 128 / 129 / 140 containers — arrays only, objects only,
+/// alternating (either kind outermost), arrays with a BRACE as 128th opener, objects with a BRACKET as 128th opener — with every kind of gap
+/// (none, newline, blank, CR LF, newline + blanks; inside objects also before the key, the colon and the value) between the levels, so that line AND
+/// column of the 128th opening bracket both matter; complete documents, unclosed ones, and cut directly after the 128th opener (it is the last
+/// byte) and one byte later.
+pub fn depth_lines(sink: &mut Sink, cfg: &str, r: &mut Rng, thorough: bool) {
+    let seps: [&str; 5] = ["", "\n", " ", "\r\n", "\n  "];
+    for d in [127usize, 128, 129, 140] {
+        for mix in 0..6 {
+            for (si, sep) in seps.iter().enumerate() {
+                for rep in 0..(if thorough { 3 } else { 1 }) {
+                    let mut open: Vec<u8> = vec![]; let mut close: Vec<u8> = vec![];
+                    let mut at128: Option<usize> = None;
+                    for i in 0..d {
+                        let obj = match mix { 0 => false, 1 => true, 2 => i % 2 == 1, 3 => i % 2 == 0, 4 => i == 127, _ => i != 127 };
+                        if i > 0 { open.extend_from_slice(sep.as_bytes()); }
+                        if i == 127 { at128 = Some(open.len()); }
+                        if obj {
+                            // gaps inside the object follow the level separator; with `rep` > 0 they are drawn at random
+                            let g = |r: &mut Rng| -> &str { if rep == 0 { if si % 2 == 1 { *sep } else { "" } } else { *r.pick(&seps) } };
+                            open.push(b'{'); open.extend_from_slice(g(r).as_bytes()); open.extend_from_slice(b"\"a\""); open.extend_from_slice(g(r).as_bytes());
+                            open.push(b':');
+                            close.insert(0, b'}');
+                        } else { open.push(b'['); close.insert(0, b']'); }
+                    }
+                    let inner: &[u8] = *r.pick(&[&b"1"[..], b"", b"[]", b"{}", b"\n1\n", b"\"]\""]);
+                    let mut full = open.clone(); full.extend_from_slice(sep.as_bytes()); full.extend_from_slice(inner); full.extend_from_slice(&close);
+                    emit(sink, cfg, &full, r, "depth-lines");
+                    emit(sink, cfg, &open, r, "depth-lines-open");
+                    if let Some(k) = at128 {
+                        emit(sink, cfg, &open[..k + 1], r, "depth-lines-cut");
+                        if k + 2 <= open.len() { emit(sink, cfg, &open[..k + 2], r, "depth-lines-cut"); }
+                    }
+                }
+            }
+        }
+    }
+    // string literals holding brackets / escaped quotes before the deep part, and a first member before the nested one
+    for pre in ["[\"[[[{{\",", "{\"[\":\"\\\"{\",\n\"b\":", "[\"\\\\\",\n", "[[],{},[[]],\n"] {
+        for k in [126usize, 127, 128] {
+            for brace in [false, true] {
+                let mut doc = pre.as_bytes().to_vec();
+                for i in 0..k { if brace && i + 1 == k { doc.extend_from_slice(b"\n {\"k\":"); } else { doc.push(b'['); } }
+                emit(sink, cfg, &doc, r, "depth-lines-str");
+                doc.extend_from_slice(b"1");
+                emit(sink, cfg, &doc, r, "depth-lines-str");
+            }
+        }
+    }
+}
+
 /// C14 (tag `exp-edge`): explicit exponents within a few units of ±i32::MAX (beyond that `parse_exponent_overflow` takes over)
 /// combined with an implicit exponent of the same sign — fraction digits with a negative exponent, more integer digits than fit
 /// a u64 with a positive one —, so that `starting_exp ± exp` leaves the i32 range unless the arithmetic saturates.
@@ -609,6 +692,8 @@ pub fn exp_edge(sink: &mut Sink, cfg: &str, r: &mut Rng, thorough: bool) {
 pub fn run(sink: &mut Sink, prop: &str, thorough: bool, seed: u64) {
     let mut r = Rng::new(seed);
     let cfg = cfg_tag();
+    // quick tier of C01 under float_roundtrip: every number family in full, the generic families (strings, three-token sequences, documents) subsampled
+    let fr_light = prop == "C01" && !thorough && cfg!(feature = "fr");
     if prop == "C14" {
         big(sink, &cfg);
         typed_depth(sink, &cfg, &mut r);
@@ -622,7 +707,7 @@ pub fn run(sink: &mut Sink, prop: &str, thorough: bool, seed: u64) {
         }
     }
     if prop == "C05" || prop == "C14" || prop == "C02" || prop == "C01" {
-        strings(sink, &cfg, &mut r, thorough);
+        if !fr_light { strings(sink, &cfg, &mut r, thorough); }
         if prop == "C05" { return; }
     }
     if prop == "C09" || prop == "C11" {
@@ -643,16 +728,18 @@ pub fn run(sink: &mut Sink, prop: &str, thorough: bool, seed: u64) {
     if (prop == "C01" || prop == "C02" || (prop == "C09" && thorough)) && cfg!(feature = "rv") {
         raw_tokens(sink, &cfg, &mut r, thorough);
     }
-    if prop == "C01" || prop == "C02" { range_band(sink, &cfg, &mut r, thorough); }
+    if fr_light { range_band_n(sink, &cfg, &mut r, 60); } else if prop == "C01" || prop == "C02" { range_band(sink, &cfg, &mut r, thorough); }
     if prop == "C01" || prop == "C02" || prop == "C14" { long_seq(sink, &cfg, &mut r, thorough); }
+    if prop == "C01" || prop == "C02" { long_nearmiss(sink, &cfg, &mut r, thorough, !thorough && (cfg!(feature = "ap") || cfg!(feature = "rv"))); }
     if prop == "C11" || prop == "C09" { long_err(sink, &cfg, &mut r, thorough); }
+    if prop == "C11" || prop == "C09" || prop == "C14" { depth_lines(sink, &cfg, &mut r, thorough); }
     if prop == "C14" { exp_edge(sink, &cfg, &mut r, thorough); }
     let toks = tokens();
     let n = if thorough { 4 } else { 3 };
     emit(sink, &cfg, b"", &mut r, "exh0");
     for len in 1..=n {
         // length n in the thorough tier is sampled 1/4 to bound the run time; lower lengths are complete
-        let (shard, nshards) = if thorough && len == 4 { ((seed % 4) as usize, 4) } else { (0, 1) };
+        let (shard, nshards) = if thorough && len == 4 { ((seed % 4) as usize, 4) } else if fr_light && len == 3 { ((seed % 8) as usize, 8) } else { (0, 1) };
         let mut inputs: Vec<Vec<u8>> = vec![];
         exhaustive(&toks, len, shard, nshards, |b| inputs.push(b.to_vec()));
         for b in inputs { emit(sink, &cfg, &b, &mut r, &format!("exh{}", len)); }
@@ -665,7 +752,7 @@ pub fn run(sink: &mut Sink, prop: &str, thorough: bool, seed: u64) {
         for p in pats.iter() { emit(sink, &cfg, p, &mut r, "byte"); }
     }
     depth_profiles(sink, &cfg, &mut r);
-    let docs = if thorough { 30000 } else { 3000 };
+    let docs = if thorough { 30000 } else if fr_light { 1000 } else { 3000 };
     for _ in 0..docs {
         let d = gen_doc(&mut r, 3);
         emit(sink, &cfg, &d, &mut r, "doc");
